@@ -3,6 +3,7 @@ From Coq Require Import NArith ZArith List Bool.
 From AJ Require Import Model.Base Model.Value Model.Utf Model.NumParse Model.JsonParse.
 From AJ Require Import Spec.Rfc8259 Spec.ParseSpec Proofs.Lex Proofs.ParseSafe Proofs.ParseComplete Proofs.ParseDepth Proofs.GenAgree.
 From AJ Require Gen.Tables.
+From AJ Require Import Spec.Dialect Proofs.DialectSound.
 Local Open Scope N_scope.
 
 (* RFC 8259 is inside the dialect: every such text within the limits is accepted with the value it denotes *)
@@ -58,6 +59,89 @@ Qed.
 Print Assumptions C10_source_agrees.
 
 (* classification examples: whitespace only, truncated value, wrong token, too deep *)
+(* ---- exactly the dialect.  Spec/Dialect.v defines the dialect as relations between a text and its value, independently
+   of the parser: RFC 8259 plus comments (only when enabled), single-quoted strings, unquoted keys, lenient numbers (a
+   token of at most 63 number characters that parseNumber accepts; NaN / Infinity spellings only when enabled), no
+   trailing commas, every container and string closed.  For every input made of bytes, every configuration and limit:
+   deserializeJson returns Ok with document v  IF AND ONLY IF  the input is insignificant bytes, then a text of the
+   dialect denoting v nested at most L deep, then anything (after a number: end of input, NUL or whitespace). ---- *)
+Theorem C10_accepts_exactly_the_dialect : forall cf L i v, bytes256 i ->
+  (j_err (json_run cf None L i) = Ok /\ j_doc (json_run cf None L i) = v) <->
+  (exists w t rest d, i = w ++ t ++ rest /\ dws cf w /\ (d <= L)%nat /\ dvalue cf d t v /\
+                      dtrailing v rest).
+Proof. exact dialect_exact. Qed.
+Print Assumptions C10_accepts_exactly_the_dialect.
+
+(* the two directions separately *)
+Theorem C10_dialect_sound : forall cf L i o,
+  bytes256 i -> o = json_run cf None L i -> j_err o = Ok ->
+  exists w t rest, i = w ++ t ++ rest /\ dws cf w /\
+    (exists d, (d <= L)%nat /\ dvalue cf d t (j_doc o)) /\ dtrailing (j_doc o) rest.
+Proof. exact dialect_sound. Qed.
+Print Assumptions C10_dialect_sound.
+
+Theorem C10_dialect_complete : forall cf L w t v rest d,
+  dws cf w -> dvalue cf d t v -> (d <= L)%nat -> dtrailing v rest ->
+  j_err (json_run cf None L (w ++ t ++ rest)) = Ok /\ j_doc (json_run cf None L (w ++ t ++ rest)) = v.
+Proof. exact dialect_complete. Qed.
+Print Assumptions C10_dialect_complete.
+
+(* comments only when enabled: without the option the insignificant bytes are whitespace only *)
+Theorem C10_comments_only_when_enabled : forall cf L i,
+  enable_comments cf = false -> bytes256 i -> j_err (json_run cf None L i) = Ok ->
+  exists w t rest, i = w ++ t ++ rest /\ Forall (fun c => is_space c = true) w /\
+    exists d, (d <= L)%nat /\ dvalue cf d t (j_doc (json_run cf None L i)).
+Proof. exact comments_only_when_enabled_run. Qed.
+Print Assumptions C10_comments_only_when_enabled.
+
+(* NaN only when enabled (a NaN value can only come from the NaN spelling: the arithmetic of parseNumber never
+   produces one); the NaN / Infinity SPELLINGS only when enabled (an exponent overflow like 1e999 still gives +inf) *)
+Theorem C10_nan_only_when_enabled : forall cf t v,
+  enable_nan cf = false -> dnumber cf t v -> jv_is_nan v = false.
+Proof. exact nan_only_when_enabled. Qed.
+Print Assumptions C10_nan_only_when_enabled.
+
+Theorem C10_nan_inf_spelling_only_when_enabled : forall cf t v,
+  enable_nan cf = false -> enable_inf cf = false -> dnumber cf t v ->
+  (NumParse.is_digit (hd0 (strip_sign t)) = true \/ hd0 (strip_sign t) = 46) /\
+  Forall (fun c => is_between c 48 57 = true \/ c = 43 \/ c = 45 \/ c = 46 \/ c = 101 \/ c = 69) t.
+Proof. exact nan_inf_spelling_only_when_enabled. Qed.
+Print Assumptions C10_nan_inf_spelling_only_when_enabled.
+
+(* RFC 8259 is inside the dialect *)
+Theorem C10_rfc_inside_dialect : forall cf, decode_unicode cf = true ->
+  forall d t v, jvalueD (num_den cf) d t v -> dvalue cf d t v.
+Proof. exact rfc_inside_dialect. Qed.
+Print Assumptions C10_rfc_inside_dialect.
+
+(* whatever is accepted as an array, an object or a string is closed by its bracket / by the quote that opened it *)
+Theorem C10_accepted_is_closed : forall cf L i,
+  bytes256 i -> j_err (json_run cf None L i) = Ok ->
+  exists w t rest, i = w ++ t ++ rest /\ dws cf w /\
+    match j_doc (json_run cf None L i) with
+    | JArr _ => exists body, t = [91] ++ body ++ [93]
+    | JObj _ => exists body, t = [123] ++ body ++ [125]
+    | JStr _ => exists q body, (q = 34 \/ q = 39) /\ t = [q] ++ body ++ [q]
+    | _ => True
+    end.
+Proof. exact accepted_is_closed. Qed.
+Print Assumptions C10_accepted_is_closed.
+
+(* the byte hypothesis is needed (inputs are lists of N in the model): checked refutation *)
+Theorem C10_soundness_needs_bytes :
+  ~ (forall cf L i o, o = json_run cf None L i -> j_err o = Ok ->
+       exists w t rest, i = w ++ t ++ rest /\ dws cf w /\
+         (exists d, (d <= L)%nat /\ dvalue cf d t (j_doc o)) /\ dtrailing (j_doc o) rest).
+Proof. exact dialect_sound_needs_bytes. Qed.
+Print Assumptions C10_soundness_needs_bytes.
+
+Example C10_no_trailing_comma :
+  j_err (json_run default_cfg None 10 [91; 49; 44; 93]) = InvalidInput /\
+  j_err (json_run default_cfg None 10 [123; 34; 97; 34; 58; 49; 44; 125]) = InvalidInput /\
+  j_err (json_run default_cfg None 10 [91; 49; 44]) = IncompleteInput /\
+  j_err (json_run default_cfg None 10 [34; 97]) = IncompleteInput.
+Proof. exact trailing_comma_rejected. Qed.
+
 Example C10_classification :
   j_err (json_run default_cfg None 10 [32; 10; 9]) = EmptyInput /\
   j_err (json_run default_cfg None 10 [91; 49; 44]) = IncompleteInput /\
